@@ -200,7 +200,7 @@ def check_program(es5, Node, src, with_comments=False):
     return probs
 
 
-SEPS = [' ', '\n', '\r\n', ' /*c*/ ', '\t', '\r', ' /*a\nb*/ ', '  // x\n', ' ', '\n\n   ']
+SEPS = [' ', '\n', '\r\n', ' /*c*/ ', ' /*a\u2028b\u2029*/ ', '\r', ' /*a\nb*/ ', '  // x\n', '\t', '\n\n   ']
 
 
 def main(run, tier):
@@ -242,8 +242,8 @@ def main(run, tier):
     run.extra['tagged_action_runs'] = total_runs
     # ---- bounded stand-in: whole pipeline on generated programs x layouts
     corpus = gen.corpus(g, depth2=(tier == 'thorough'))
-    progs = [gen.render(t, sep) for _, t in corpus for sep in (SEPS if tier == 'thorough' else SEPS[:4])]
-    progs += [p.replace(' ', s) for p in gen.EXTRA_PROGRAMS for s in (' ', '\n', '\r\n', ' /*c*/ ')]
+    progs = [gen.render(t, sep) for _, t in corpus for sep in (SEPS if tier == 'thorough' else SEPS[:5])]
+    progs += [p.replace(' ', s) for p in gen.EXTRA_PROGRAMS for s in (' ', '\n', '\r\n', ' /*c*/ ', ' /*a\u2028b*/ ')]
     n = ok = nfail = 0
     for src in progs:
         for wc in (False, True):
@@ -259,7 +259,7 @@ def main(run, tier):
                 run.failed('rt.positions', 'E4/bounded', src, dict(source=src, with_comments=wc, problem=why),
                            observed=why, required='position = ES5 line/column of its own token', replayed=True)
     run.bounded_check('rt.positions', 'generated minimal program per production (x depth-2 nestings in thorough) x %d '
-                      'separator layouts x comment capture on/off; rejected layouts skipped' % (len(SEPS) if tier == 'thorough' else 4),
+                      'separator layouts x comment capture on/off; rejected layouts skipped' % (len(SEPS) if tier == 'thorough' else 5),
                       n, ok)
     run.trust('ply.yacc tracking contract: a reduced symbol takes (lineno, lexpos) of its first RHS symbol, or the '
               "lexer's current position for an empty production; p.lexpos(i)/p.lineno(i) read slot i",
